@@ -19,7 +19,8 @@ RULE = ('A Hypothesis example is a batch of input calls (alias or resolver-forma
         'pairs over a run). Relations: (1) equal => same key: the replayed call is a structurally equal reconstruction '
         '(dict items and set members in reversed order, arguments excluded from capture replaced by other values) and '
         'must receive the token recorded for the original; the key strings listed by get_all_keys() in two processes '
-        'must be equal sets; (2) distinct => distinct: calls of a batch that differ in alias or captured arguments have '
+        'must be equal sets, also when the second process makes the calls in reversed order (no dependence on call history; '
+        'this includes calls that are == but differently typed, e.g. 1 / 1.0 / True); (2) distinct => distinct: calls of a batch that differ in alias or captured arguments have '
         'different tokens and each replayed call must receive its own (a collision would overwrite an entry). '
         'Non-trivial: the argument tree contains a dict with >= 2 keys, a nested container, an object or a capture '
         'subset, and recorder and replayer have different hash seeds. Distinct = distinct (batch, seed pair).')
@@ -105,13 +106,15 @@ def check_batch(ctx, case):
         kept.append(s)
     # distinct tokens; drop calls that are == (but not identical in serialised form) to an earlier one
     steps = []
-    for s in kept:
+    typed_equal = []     # calls that are == an earlier call but differently typed: tokens are not constrained for them,
+    for s in kept:       # but the key strings must not depend on the order in which the calls are made (below)
         clash = False
         for t in steps:
             if py_equal_keyparts(prog, s, t) and PS.model_key(prog, s) != PS.model_key(prog, t):
                 clash = True
         if clash:
-            ctx.exclude('call == an earlier call but of different type (1 / 1.0 / True)')
+            ctx.exclude('token check skipped: call == an earlier call but of different type (1 / 1.0 / True)')
+            typed_equal.append(s)
             continue
         steps.append(s)
     for n, s in enumerate(steps):
@@ -147,14 +150,50 @@ def check_batch(ctx, case):
                                     s['sid'], prog['ins'][s['i']]['alias'], prog['ins'][s['i']].get('capture'),
                                     s['a'], s['b'], 'kw=%s' % s.get('usekw'), a, want[s['sid']], b, got),
                                 'equal-same-key' if (got is None or got[0] == 'e') else 'distinct-keys')
-        # key strings across processes
+        # key strings across processes AND across call orders: the batch (now including the typed-equal calls) is
+        # recorded in the original order by one child and, as reconstructions in REVERSED order, by the other: the key
+        # of a call may not depend on which calls were made before it
         work2 = tempfile.mkdtemp(prefix='verif-c06b-')
+        work3 = tempfile.mkdtemp(prefix='verif-c06c-')
         try:
-            r2 = child(b).call({'cmd': 'record', 'dir': work2, 'prog': replayed})
+            fwd = copy.deepcopy(prog)
+            for n, s in enumerate(typed_equal):
+                t = copy.deepcopy(s)
+                t['ret'], t['beh'] = 5000 + n, 'ret'
+                fwd['steps'].append(t)
+            fwd = PS.assign_sids(fwd)
+            rev = copy.deepcopy(fwd)
+            for s in rev['steps']:
+                d = rev['ins'][s['i']]
+                t = scrub_uncaptured(d, s, case['other'])
+                s['a'], s['b'] = HS.variant(t['a']), HS.variant(t['b'])
+                if 'kwrev' in t:
+                    s['kwrev'] = t['kwrev']
+            rev['steps'].reverse()
+            rev = PS.assign_sids(rev)
+            if typed_equal:
+                # history independence needs interpreters without history: two fresh children
+                ca, cb = HS.Child(a), HS.Child(b)
+                try:
+                    rf = ca.call({'cmd': 'record', 'dir': work3, 'prog': fwd})
+                    r2 = cb.call({'cmd': 'record', 'dir': work2, 'prog': rev})
+                finally:
+                    ca.close()
+                    cb.close()
+            else:
+                rf = r1
+                r2 = child(b).call({'cmd': 'record', 'dir': work2, 'prog': rev})
         finally:
             shutil.rmtree(work2, ignore_errors=True)
+            shutil.rmtree(work3, ignore_errors=True)
+        kf = [k for k in rf['keys'] if k.startswith('input:')]
+        kr = [k for k in r2['keys'] if k.startswith('input:')]
+        if sorted(kf) != sorted(kr):
+            raise Violation('key strings depend on process or call order (hash seeds %s / %s; second recording made the '
+                            'same calls in reversed order): only in first %r, only in second %r' % (
+                                a, b, sorted(set(kf) - set(kr))[:3], sorted(set(kr) - set(kf))[:3]), 'key-strings')
         k1 = [k for k in r1['keys'] if k.startswith('input:')]
-        k2 = [k for k in r2['keys'] if k.startswith('input:')]
+        k2 = k1
         if sorted(k1) != sorted(k2):
             raise Violation('key strings differ between processes (hash seeds %s / %s): only in first %r, only in '
                             'second %r' % (a, b, sorted(set(k1) - set(k2))[:3], sorted(set(k2) - set(k1))[:3]),
@@ -167,7 +206,7 @@ def check_batch(ctx, case):
         shutil.rmtree(work, ignore_errors=True)
     nt = a != b and any(nontrivial_tree(s['a']) or nontrivial_tree(s['b']) or
                         prog['ins'][s['i']].get('capture', 'all') not in ('all',) for s in prog['steps'])
-    ctx.case(case, nt, classes=('seeds:%s' % ('same' if a == b else 'different'), 'batch:%d' % min(len(steps), 10)) +
+    ctx.case(case, nt, classes=('seeds:%s' % ('same' if a == b else 'different'), 'typed-equal:%d' % min(len(typed_equal), 3), 'batch:%d' % min(len(steps), 10)) +
              tuple(set('capture:' + prog['ins'][s['i']].get('capture', 'all') for s in prog['steps'])) +
              tuple(set('kind:' + prog['ins'][s['i']]['kind'] for s in prog['steps'])))
 
@@ -180,8 +219,19 @@ def batches(draw):
     # near-duplicates: same call with one argument changed, to probe collisions
     for _ in range(draw(st.integers(0, 3))):
         s = copy.deepcopy(steps[draw(st.integers(0, len(steps) - 1))])
-        which = draw(st.sampled_from(['a', 'b', 'name', 'usekw', 'i']))
+        which = draw(st.sampled_from(['a', 'b', 'name', 'usekw', 'i', 'retype', 'retype']))
         s.pop('kwrev', None)
+        if which == 'retype':
+            # the same call with an argument that is == but of another type (1 / 1.0 / True, 0 / False / 0.0)
+            n = draw(st.sampled_from([0, 1, 1, 2]))
+            forms = [n, float(n)] + ([bool(n)] if n in (0, 1) else [])
+            base = copy.deepcopy(s)
+            base['a'] = forms[0]
+            base['b'] = draw(st.sampled_from([None, 'x', 2]))
+            steps.append(base)
+            s = copy.deepcopy(base)
+            s['a'] = draw(st.sampled_from(forms[1:]))
+            which = 'none'
         if which in ('a', 'b'):
             s[which] = draw(vals)
         elif which == 'name':
